@@ -363,6 +363,39 @@ func (g *Gen) noteExternal(c *FnCtx, s *summary, callee *ssa.Function, cc *ssa.C
 		switch name {
 		case "(*sync.Mutex).Lock", "(*sync.RWMutex).Lock", "(*sync.RWMutex).RLock", "(*sync.Cond).Wait":
 			// guarded fields are havocked: find the mutex field
+			if name == "(*sync.Cond).Wait" {
+				// the argument is the cond, not the mutex: its lock comes from the `cond f uses path`
+				// annotation; without one nothing is known about what other goroutines did meanwhile
+				resolved := false
+				if len(cc.Args) > 0 {
+					var fa *ssa.FieldAddr
+					switch a := cc.Args[0].(type) {
+					case *ssa.FieldAddr:
+						fa = a
+					case *ssa.UnOp:
+						fa, _ = a.X.(*ssa.FieldAddr)
+					}
+					if fa != nil {
+						pt := fa.X.Type().Underlying().(*types.Pointer)
+						st := pt.Elem().Underlying().(*types.Struct)
+						if sa := g.ann.structs[g.typeKey(pt.Elem())]; sa != nil {
+							if path, has := sa.conds[st.Field(fa.Field).Name()]; has {
+								if lk, _ := g.resolveLockPath(pt.Elem(), path); lk != "" {
+									s.locks[lk] = true
+									for _, hv := range g.ann.guardedVars(lk) {
+										s.vars[hv] = true
+									}
+									resolved = true
+								}
+							}
+						}
+					}
+				}
+				if !resolved {
+					s.all = true
+				}
+				return
+			}
 			if len(cc.Args) > 0 {
 				if fa, ok := cc.Args[0].(*ssa.FieldAddr); ok {
 					pt := fa.X.Type().Underlying().(*types.Pointer)
@@ -488,8 +521,8 @@ func init() {
 		"(encoding/binary.bigEndian).PutUint16": {apply: (*fnTrans).mBEPut, mods: bytesMods},
 		"(encoding/binary.bigEndian).PutUint32": {apply: (*fnTrans).mBEPut, mods: bytesMods},
 		"(encoding/binary.bigEndian).PutUint64": {apply: (*fnTrans).mBEPut, mods: bytesMods},
-		"(*sync.Pool).Get":        {pure: true},
-		"(*sync.Pool).Put":        {pure: true},
+		"(*sync.Pool).Get":        {pure: true, apply: (*fnTrans).mPoolGet},
+		"(*sync.Pool).Put":        {pure: true, apply: (*fnTrans).mPoolPut},
 		"math/rand.Float64":       {pure: true, apply: (*fnTrans).mRandFloat},
 		"math/rand.Intn":          {pure: true},
 		"math/rand.Uint32":        {pure: true},
